@@ -19,7 +19,21 @@ fn apply<R: RealNumberInternalTrait>(
         let extended = args.pop().unwrap();
 
         let extended = match extended {
-            Value::Pair(p) => p.into_iter().collect::<ArgVec<R>>(),
+            Value::Pair(p) => {
+                // the last argument must be a proper list: a chain of pairs that ends in
+                // something else is not spread as if its tail were one more element
+                let shown = p.to_string();
+                let mut spread = ArgVec::<R>::new();
+                for item in pair::IntoPairIter::from(*p) {
+                    match item {
+                        pair::PairIterItem::Proper(value) => spread.push(value),
+                        pair::PairIterItem::Improper(_) => {
+                            return error!(LogicError::TypeMisMatch(shown, Type::Pair))?
+                        }
+                    }
+                }
+                spread
+            }
             other => return error!(LogicError::TypeMisMatch(other.to_string(), Type::Pair))?,
         };
         args.extend(extended);
